@@ -143,6 +143,8 @@ def _frames(s: Stream, p, nsteps: int, rev: bool, stop_extra: bool) -> dict:
         fr["split"] = split
     if s.chance(p["p_packed"]):
         fr["storage"] = "i2"
+        # each component packed to its own range, as ROMS post-processing does
+        fr["scale"] = [s.pick([1.0e-4, 5.0e-5, 2.5e-4]), s.pick([1.0e-4, 2.0e-4, 2.5e-5])]
     return fr
 
 
